@@ -14,11 +14,22 @@ import ClarabelProofs.Lemmas.KktUpdateSparse
 import ClarabelProofs.Lemmas.KktFillBlock
 import ClarabelProofs.Lemmas.KktSpec
 import ClarabelProofs.Lemmas.KktCanonical
+import ClarabelProofs.Lemmas.KktCanonical0
 import ClarabelProofs.Lemmas.KktInertia
 import ClarabelProofs.Lemmas.KktInertiaSoc
 import ClarabelProofs.Lemmas.KktUpdateAsm
 import ClarabelProofs.Lemmas.KktUpdateTotal
 import ClarabelProofs.Lemmas.KktSigns
+import ClarabelProofs.Lemmas.KktInertiaList
+import ClarabelProofs.Lemmas.KktInertiaCones
+import ClarabelProofs.Lemmas.KktInertiaGenPowReal
+import ClarabelProofs.Lemmas.KktLdlSigns
+import ClarabelProofs.Lemmas.KktQdldlSigns
+import ClarabelProofs.Lemmas.KktQdldlInput
+import ClarabelProofs.Lemmas.KktQdldlExample
+import ClarabelProofs.Lemmas.KktScalingFits
+import ClarabelProofs.Lemmas.KktGenPowMulHs
+import ClarabelProofs.Lemmas.NonsymGenPowScaling
 
 namespace Clarabel.C11
 open Clarabel Clarabel.Csc Clarabel.Kkt
@@ -243,15 +254,32 @@ theorem assembly_canonical {P A : Csc α} {cones : List ConeSpec} {shape : Matri
   have : 0 < (K.colRows c).length := List.length_pos_iff.mpr hne
   omega
 
-/-- [S] `C11.assembly_check_format`: the returned matrix is canonical in the sense of property
-C16 (`Clarabel.C16.Canonical`; by `C16.check_format_iff` this is `check_format() = Ok`):
-consistent lengths, monotone `colptr` ending at `nnz`, strictly increasing row indices `< N` in
-every column. -/
+/-- [S] `C11.assembly_check_format`: the returned matrix is a canonical encoding in the strict
+sense of property C16 (`Clarabel.C16.Canonical0`: consistent lengths, `colptr[0] = 0`, monotone
+`colptr` ending at `nnz`, strictly increasing row indices `< N` in every column), and the model's
+`check_format` (which tests `colptr[0] = 0` since /repo 190e6c4) returns `Ok` on it.
+(`Canonical0.canon` is the weaker `Canonical` this theorem stated before.) -/
 theorem assembly_check_format {P A : Csc α} {cones : List ConeSpec} {shape : MatrixTriangle}
     {K : Csc α} {map : LDLDataMap} (hin : KktInputs P A cones)
-    (h : assembleKktMatrix P A cones shape = .ok (K, map)) : Clarabel.C16.Canonical K := by
+    (h : assembleKktMatrix P A cones shape = .ok (K, map)) :
+    Clarabel.C16.Canonical0 K ∧ K.checkFormat = .ok () := by
   obtain ⟨sched, Kc, nd, R⟩ := asmRun_of_ok hin h
-  exact R.canonical hin.P_canon hin.P_triu hin.P_square hin.A_canon hin.n_eq hin.m_eq
+  have h0 := Clarabel.Lemmas.KktCanonical0.asmRun_canonical0 R hin.P_canon hin.P_triu hin.P_square
+    hin.A_canon hin.n_eq hin.m_eq
+  exact ⟨h0, (Clarabel.Csc.checkFormat_iff0 K).mpr h0⟩
+
+/-- [S] `C11.assembly_check_format_updated`: the same after `update` (or any other rewrite of
+the values, e.g. the `± ε` of `regularize_and_refactor`): the matrix with the pattern of the
+assembly and ANY value array of the assembled length still passes `check_format`. -/
+theorem assembly_check_format_updated {P A : Csc α} {cones : List ConeSpec}
+    {shape : MatrixTriangle} {K : Csc α} {map : LDLDataMap} (hin : KktInputs P A cones)
+    (h : assembleKktMatrix P A cones shape = .ok (K, map)) (nz' : Array α)
+    (hsz : nz'.size = K.nzval.size) :
+    Clarabel.C16.Canonical0 { K with nzval := nz' } ∧
+      ({ K with nzval := nz' } : Csc α).checkFormat = .ok () := by
+  have h0 := Clarabel.Lemmas.KktCanonical0.canonical0_with_nzval (assembly_check_format hin h).1
+    nz' hsz
+  exact ⟨h0, (Clarabel.Csc.checkFormat_iff0 _).mpr h0⟩
 
 /-- [S] `C11.assembly_exact`: **the stored entries are exactly the intended ones** — `(row, v)`
 is stored in column `col` of `K` iff the triple is an entry of `P`, a filled-in diagonal zero, an
@@ -1070,5 +1098,483 @@ theorem refinement_ldl_copy (nz : Array α) (diagFull : Array Nat) (dsigns : Arr
   regularizeAndRestore_factor h hnd
 
 end restore
+
+-- ====================================================================================
+-- inertia for every cone list; generalised power cone expansion (follow-up to round 3)
+-- ====================================================================================
+
+section inertia_list
+open Clarabel.Lemmas.KktInertia Clarabel.Lemmas.KktInertiaList Clarabel.Lemmas.KktInertiaCones
+open Clarabel.Lemmas.KktSpec
+
+variable {α : Type} [Field α] [LinearOrder α] [IsStrictOrderedRing α]
+
+/-
+  Vocabulary (`Lemmas/KktInertiaList.lean`, `Lemmas/KktInertiaCones.lean`):
+  * `QuasiDefGE K s S ε`: `K` symmetric, `xᵀKx ≥ ε‖x‖²` for `x` supported on the `+` indices of
+    `S`, `xᵀKx ≤ −ε‖x‖²` on the `−` indices (quasidefinite WITH MARGIN `ε`);
+  * `expForm H V e y s = yᵀHy + 2 Σₐ sₐ (Vₐ·y) + Σₐ eₐ sₐ²`: the form of the bordered block
+    `[[H, V], [Vᵀ, diag e]]` of a cone (`H`: its Hs block as `update` writes it, sign flipped; `V a`:
+    minus the stored column of the `a`-th NEGATIVE auxiliary variable, `e a`: minus its stored
+    diagonal entry);
+  * `listKkt P ep B H V e ε`: the regularised KKT matrix of a cone list, index type
+    `(primal ⊕ plus-aux) ⊕ Σ cone, (rows ⊕ minus-aux)`:
+    `[[P+εI, 0, ·], [0, diag(ep)+εI, ·], [B, −blockdiag_i [[Hᵢ+εI, Vᵢ],[Vᵢᵀ, diag(eᵢ)+εI]]]]`;
+  * `KktIdx n cones`, `flatPos n cones idx`: that index type for a `List ConeSpec` (rows
+    `Fin numel`, `nMinus`/`nPlus` auxiliary variables per cone: 1/1 for a sparse second-order
+    cone, 2/1 for a generalised power cone, 0/0 otherwise) and the COLUMN of the assembled matrix
+    that carries a structured index.
+-/
+
+/-- [F] `C11.inertia_margin`: a matrix that is quasidefinite with margin `ε > 0` is quasidefinite,
+and in ANY elimination order every `LDLᵀ` pivot has the recorded sign AND modulus `≥ ε` — the static
+regularisation is a lower bound for every pivot, whatever the permutation. -/
+theorem inertia_margin {ι : Type} [Fintype ι] [DecidableEq ι] {K : ι → ι → α} {s : ι → Bool}
+    {S : Finset ι} {ε : α} (order : List ι) (h : QuasiDefGE K s S ε) (hε : 0 < ε)
+    (hnd : order.Nodup) (hS : ∀ p ∈ order, p ∈ S) :
+    QuasiDef K s S ∧
+      List.Forall₂ (fun p d => if s p then ε ≤ d else d ≤ -ε) order (pivots K order) :=
+  ⟨h.quasiDef hε, pivots_margin_forall₂ order h hε hnd hS⟩
+
+/-- [F] `C11.inertia_genpow_expansion`: the regularised KKT matrix WITH the sparse expansion of a
+GENERALISED POWER cone (`genpowKkt`, entries `genpowKkt_entries`: primal block `P + εI`, cone rows
+`−(μD + εI)`, auxiliary columns `−√μ q`, `−√μ r`, `−√μ p`, auxiliary diagonal `−1−ε, −1−ε, 1+ε`) is
+quasidefinite with margin `ε` for the sign pattern `+ primal, + p-aux, − cone rows, − q-aux, − r-aux`
+— what `_fill_signs` records (`[-1, -1, +1]` on the `q, r, p` columns, `assembly_signs`) — provided
+`P ⪰ 0`, `μ = (√μ)²` and `D − qqᵀ − rrᵀ ⪰ 0` (true for the data of `update_dual_grad_H`:
+`inertia_genpow_data`).  Hence for ANY elimination order every pivot has the recorded sign and
+modulus `≥ ε`, and none vanishes. -/
+theorem inertia_genpow_expansion {ι₁ : Type} [Fintype ι₁] [DecidableEq ι₁] {m : ℕ}
+    {P : ι₁ → ι₁ → α} (A : Fin m → ι₁ → α) {μ sm ε : α} {D q r : Fin m → α} (p : Fin m → α)
+    (hP : PosSemidef P) (hε : 0 < ε) (hsm : sm * sm = μ)
+    (hD : ∀ y : Fin m → α, dot q y ^ 2 + dot r y ^ 2 ≤ ∑ i, D i * y i ^ 2)
+    (order : List ((ι₁ ⊕ Fin 1) ⊕ (Σ _ : Fin 1, Fin m ⊕ Fin 2))) (hnd : order.Nodup) :
+    QuasiDefGE (genpowKkt P A μ sm ε D p q r) Sum.isLeft Finset.univ ε ∧
+    QuasiDef (genpowKkt P A μ sm ε D p q r) Sum.isLeft Finset.univ ∧
+    List.Forall₂ (fun idx piv => if idx.isLeft then ε ≤ piv else piv ≤ -ε) order
+      (pivots (genpowKkt P A μ sm ε D p q r) order) ∧
+    ∀ piv ∈ pivots (genpowKkt P A μ sm ε D p q r) order, piv ≠ 0 := by
+  have h := quasiDefGE_genpowKkt (ε := ε) A p hP hsm hD
+  exact ⟨h, h.quasiDef hε,
+    pivots_margin_forall₂ order h hε hnd (fun _ _ => Finset.mem_univ _),
+    pivots_ne_zero order (h.quasiDef hε) hnd (fun _ _ => Finset.mem_univ _)⟩
+
+/-- non-vacuity of `inertia_genpow_expansion` (over ℚ): `P = [1]`, `μ = 4`, `√μ = 2`,
+`D = (1, 1)`, `q = (½, 0)`, `r = (0, ½)`. -/
+example : PosSemidef (fun (_ _ : Fin 1) => (1 : ℚ)) ∧ (2 : ℚ) * 2 = 4 ∧
+    ∀ y : Fin 2 → ℚ, dot (![1 / 2, 0] : Fin 2 → ℚ) y ^ 2 + dot (![0, 1 / 2] : Fin 2 → ℚ) y ^ 2
+      ≤ ∑ i, (![1, 1] : Fin 2 → ℚ) i * y i ^ 2 := by
+  refine ⟨exP_psd, by norm_num, fun y => ?_⟩
+  simp only [dot, Fin.sum_univ_two, Matrix.cons_val_zero, Matrix.cons_val_one]
+  nlinarith [sq_nonneg (y 0), sq_nonneg (y 1)]
+
+/-- [R] `C11.inertia_genpow_data`: **`D − qqᵀ − rrᵀ ⪰ 0` holds for the Hessian data that the
+generalised-power-cone model writes** (`GenPow.updateDualGradH`, model of
+`genpowcone.rs::update_dual_grad_H`; C14 `genpow_hess_entries` shows `D + ppᵀ − qqᵀ − rrᵀ` is the
+Hessian of the dual barrier), in every dimension: exponents `α > 0`, `Σα = 1`, dual point `(u, w)`
+with `u > 0` and `ζ > 0` (what `update_scaling` accepts: C14 `genpow_update_scaling_test`).  In
+the vocabulary of `update_genpow_schur`: `(q̃·y)² + (r̃·y)² ≤ Σₖ Dₖ yₖ²`. -/
+theorem inertia_genpow_data (al u w : List ℝ) (hlen : al.length = u.length)
+    (ha : ∀ a ∈ al, 0 < a) (hsum : al.sum = 1) (hu : ∀ x ∈ u, 0 < x)
+    (hζ : 0 < Clarabel.GenPow.prodPhi al u - Clarabel.GenPow.sumSq w) (D : Clarabel.GenPow.Data ℝ)
+    (hD : Clarabel.GenPow.updateDualGradH al.toArray (u ++ w).toArray = .ok D)
+    (y : Fin (D.d1.size + D.r.size) → ℝ) :
+    dot (Clarabel.Lemmas.KktUpdateSchur.placeAt D.q 0) y ^ 2
+      + dot (Clarabel.Lemmas.KktUpdateSchur.placeAt D.r D.d1.size) y ^ 2
+      ≤ ∑ k, Clarabel.Lemmas.KktUpdateSchur.genpowD D.d1 D.d2 k * y k ^ 2 :=
+  Clarabel.Lemmas.KktInertiaGenPowReal.genpow_D_sub_qq_rr_nonneg al u w hlen ha hsum hu hζ D hD y
+
+/-- non-vacuity of `inertia_genpow_data`: `α = (½, ½)`, `u = (1, 1)`, `w = (½)` (`φ = 4`,
+`ζ = 15/4`); `update_dual_grad_H` succeeds there. -/
+example : ∃ D : Clarabel.GenPow.Data ℝ, ([1 / 2, 1 / 2] : List ℝ).length = ([1, 1] : List ℝ).length ∧
+    (∀ a ∈ ([1 / 2, 1 / 2] : List ℝ), 0 < a) ∧ ([1 / 2, 1 / 2] : List ℝ).sum = 1 ∧
+    (∀ x ∈ ([1, 1] : List ℝ), 0 < x) ∧
+    0 < Clarabel.GenPow.prodPhi [1 / 2, 1 / 2] [1, 1] - Clarabel.GenPow.sumSq [1 / 2] ∧
+    Clarabel.GenPow.updateDualGradH ([1 / 2, 1 / 2] : List ℝ).toArray
+      (([1, 1] : List ℝ) ++ [1 / 2]).toArray = .ok D := by
+  have hζ : 0 < Clarabel.GenPow.prodPhi [1 / 2, 1 / 2] [1, 1] - Clarabel.GenPow.sumSq [1 / 2] := by
+    unfold Clarabel.GenPow.prodPhi Clarabel.GenPow.sumSq
+    norm_num
+  obtain ⟨D, hD, _⟩ := Clarabel.GenPow.updateDualGradH_data [1 / 2, 1 / 2] [1, 1] [1 / 2] rfl hζ
+  refine ⟨D, rfl, ?_, by norm_num, ?_, hζ, hD⟩
+  · intro a ha; simp at ha; rcases ha with rfl | rfl <;> norm_num
+  · intro x hx; simp at hx; subst hx; norm_num
+
+/-- [F] the bordered block of a cone WITHOUT sparse expansion has a nonnegative form iff its Hs
+block is positive semidefinite — the hypothesis `hform` of `inertia_cone_list` for zero,
+nonnegative, small second-order, exponential, power and PSD cones.  (The Hs blocks are `⪰ 0`:
+C13 `nn_getHs_eq_mulHs` (`diag w²`), `soc_dense_getHs_eq_mulHs` (`η²(2wwᵀ − J)`, `w` normalised),
+`psd_getHs_eq_mulHs`; C14 `pd_scaling_posdef` for the exponential and power cones.) -/
+theorem cone_form_nonsparse {nr na : ℕ} (hna : na = 0) (H : Fin nr → Fin nr → α)
+    (V : Fin na → Fin nr → α) (e : Fin na → α) (hH : ∀ y, 0 ≤ qf H y) (y : Fin nr → α)
+    (s : Fin na → α) : 0 ≤ expForm H V e y s := by
+  haveI : IsEmpty (Fin na) := ⟨fun x => by have := x.isLt; omega⟩
+  rw [expForm_of_isEmpty]
+  exact hH y
+
+/-- [F] … of a sparse second-order cone (`H = η²·diag(d,1,…,1)`, `V = η²·v`, `e = η²`), from the
+defining equations `SocSparse` of `update_scaling` (C13 `soc_update_sparse_data`). -/
+theorem cone_form_soc {k : ℕ} {η w0 : α} {w1 : Fin k → α} {d u0 u1 v1 : α}
+    (h : SocSparse w0 w1 d u0 u1 v1) (y : Fin (k + 1) → α) (s : Fin 1 → α) :
+    0 ≤ expForm (socH η d) (socVm η v1 w1) (fun _ => η * η) y s :=
+  expForm_soc h y s
+
+/-- [F] … of a generalised power cone (`H = μ·diag D`, `V = (√μ q, √μ r)`, `e = (1, 1)`), from
+`D − qqᵀ − rrᵀ ⪰ 0` (`inertia_genpow_data`). -/
+theorem cone_form_genpow {m : ℕ} {μ sm : α} (hsm : sm * sm = μ) {D q r : Fin m → α}
+    (hD : ∀ y : Fin m → α, dot q y ^ 2 + dot r y ^ 2 ≤ ∑ i, D i * y i ^ 2)
+    (y : Fin m → α) (s : Fin 2 → α) :
+    0 ≤ expForm (genpowH μ D) (genpowVm sm q r) (fun _ => (1 : α)) y s :=
+  expForm_genpow hsm hD y s
+
+/-- [F] `C11.inertia_cone_list`: **for EVERY cone list** — any number of sparse expansions of
+either kind, block-diagonal Hs — the regularised KKT matrix (`listKkt`: primal block `Pd + εI`,
+`Pd ⪰ 0`; for each cone `i` the block `−[[Hᵢ + εI, Vᵢ],[Vᵢᵀ, diag(eᵢ) + εI]]` of its rows and
+negative auxiliary variables; positive auxiliary diagonal `ep + ε`, `ep ≥ 0`; ANY coupling `B`
+between the two groups: the rows of `A` and the positive auxiliary columns) is quasidefinite
+with margin `ε`, provided every cone's bordered block has a nonnegative form (`cone_form_nonsparse`,
+`cone_form_soc`, `cone_form_genpow`).  Its sign pattern is EXACTLY what `_fill_signs` records for
+the maps that `assemble_kkt_matrix` made for the same cone list: `dsigns[flatPos idx] = +1` on the
+primal and positive-auxiliary indices, `−1` on the cone rows and negative-auxiliary indices.
+Hence for ANY elimination order every pivot has the recorded sign and modulus `≥ ε`; none
+vanishes. -/
+theorem inertia_cone_list {β : Type} [OfNat β 0] {Pm Am : Csc β} {cones : List ConeSpec}
+    {shape : MatrixTriangle} {Kc : Csc β} {map : LDLDataMap} (hin : KktInputs Pm Am cones)
+    (hasm : assembleKktMatrix Pm Am cones shape = .ok (Kc, map))
+    {Pd : Fin Am.n → Fin Am.n → α}
+    {ep : (Σ i : Fin cones.length, Fin (nPlus cones[i])) → α}
+    (B : (Σ i : Fin cones.length, Fin (cones[i].numel) ⊕ Fin (nMinus cones[i])) →
+      Fin Am.n ⊕ (Σ i : Fin cones.length, Fin (nPlus cones[i])) → α)
+    {H : ∀ i : Fin cones.length, Fin (cones[i].numel) → Fin (cones[i].numel) → α}
+    {V : ∀ i : Fin cones.length, Fin (nMinus cones[i]) → Fin (cones[i].numel) → α}
+    {e : ∀ i : Fin cones.length, Fin (nMinus cones[i]) → α} {ε : α}
+    (hP : PosSemidef Pd) (hε : 0 < ε) (hep : ∀ b, 0 ≤ ep b)
+    (hH : ∀ i a b, H i a b = H i b a) (hform : ∀ i y s, 0 ≤ expForm (H i) (V i) (e i) y s) :
+    QuasiDefGE (listKkt Pd ep B H V e ε) Sum.isLeft Finset.univ ε ∧
+    (∃ ds, fillSigns Am.m Am.n map.sparse_maps = .ok ds ∧
+      ∀ idx : KktIdx Am.n cones,
+        ds[flatPos Am.n cones idx]? = some (if idx.isLeft then 1 else -1)) ∧
+    ∀ order : List (KktIdx Am.n cones), order.Nodup →
+      List.Forall₂ (fun idx piv => if idx.isLeft then ε ≤ piv else piv ≤ -ε) order
+        (pivots (listKkt Pd ep B H V e ε) order) ∧
+      ∀ piv ∈ pivots (listKkt Pd ep B H V e ε) order, piv ≠ 0 := by
+  refine ⟨quasiDefGE_listKkt B hP hep hH hform, ?_, fun order hnd =>
+    listKkt_pivots B hP hε hep hH hform order hnd⟩
+  obtain ⟨ds, h0, _, h1, h2, h3⟩ := assembly_signs hin hasm
+  refine ⟨ds, h0, fun idx => signs_at_flatPos Am.n cones ds h1 ?_ ?_ idx⟩
+  · intro c hc1 hc2
+    rw [hin.m_eq] at hc2
+    exact h2 c hc1 hc2
+  · intro pre cn post j hdec hj
+    rw [hin.m_eq]
+    exact h3 pre cn post j hdec hj
+
+/-- non-vacuity of `inertia_cone_list`: the cone list `[nonneg 1, soc 5]` of the assembly example
+(one sparse expansion), `Pd = 0`, all cone data zero, `ε = 1`: every hypothesis holds. -/
+example : ∃ (Pm Am Kc : Csc ℚ) (map : LDLDataMap),
+    KktInputs Pm Am [.nonneg 1, .soc 5] ∧
+    assembleKktMatrix Pm Am [.nonneg 1, .soc 5] .triu = .ok (Kc, map) ∧
+    PosSemidef (fun (_ _ : Fin Am.n) => (0 : ℚ)) ∧
+    (∀ (i : Fin [ConeSpec.nonneg 1, .soc 5].length)
+      (y : Fin ([ConeSpec.nonneg 1, .soc 5][i].numel) → ℚ)
+      (s : Fin (nMinus [ConeSpec.nonneg 1, .soc 5][i]) → ℚ),
+      0 ≤ expForm (fun _ _ => (0 : ℚ)) (fun _ _ => (0 : ℚ)) (fun _ => (0 : ℚ)) y s) := by
+  let P : Csc ℚ := ⟨2, 2, #[0, 1, 2], #[0, 0], #[4, 1]⟩
+  let A : Csc ℚ := ⟨6, 2, #[0, 1, 2], #[0, 3], #[7, -2]⟩
+  have hin : KktInputs P A [.nonneg 1, .soc 5] := by
+    refine ⟨⟨rfl, rfl, ?_, rfl, rfl, ?_, ?_⟩, ?_, rfl, ⟨rfl, rfl, ?_, rfl, rfl, ?_, ?_⟩, rfl, rfl⟩
+    · intro i hi; match i, hi with
+      | 0, _ => decide
+      | 1, _ => decide
+    · intro j hj; match j, hj with
+      | 0, _ => decide
+      | 1, _ => decide
+    · intro i hi j h1 h2; match i, hi with
+      | 0, _ => exact absurd h2 (by show ¬ j + 1 < 1; omega)
+      | 1, _ => exact absurd (show 1 ≤ j from h1) (by have : j + 1 < 2 := h2; omega)
+    · intro i hi j h1 h2; match i, hi with
+      | 0, _ => have : j = 0 := by have : j < 1 := h2; omega
+                subst this; decide
+      | 1, _ => have : j = 1 := by have h3 : 1 ≤ j := h1; have h4 : j < 2 := h2; omega
+                subst this; decide
+    · intro i hi; match i, hi with
+      | 0, _ => decide
+      | 1, _ => decide
+    · intro j hj; match j, hj with
+      | 0, _ => decide
+      | 1, _ => decide
+    · intro i hi j h1 h2; match i, hi with
+      | 0, _ => exact absurd h2 (by show ¬ j + 1 < 1; omega)
+      | 1, _ => exact absurd (show 1 ≤ j from h1) (by have : j + 1 < 2 := h2; omega)
+  obtain ⟨K, map, _, h, _⟩ := assembly_total P A [.nonneg 1, .soc 5] .triu hin
+  refine ⟨P, A, K, map, hin, h, ⟨fun _ _ => rfl, fun x => by simp [qf]⟩, ?_⟩
+  intro i y s
+  simp [expForm, qf]
+
+end inertia_list
+
+-- ====================================================================================
+-- C11 ∘ C12: the recorded signs are the signs of QDLDL's D (follow-up to round 3)
+-- ====================================================================================
+
+section qdldl
+open Clarabel.Lemmas.KktInertia Clarabel.Lemmas.KktInertiaList Clarabel.Lemmas.KktInertiaCones
+open Clarabel.Lemmas.KktSpec
+open Clarabel.Lemmas.KktTotal (kktDim)
+
+/-- [S] `C11.kkt_is_qdldl_input`: the matrix that `assemble_kkt_matrix` returns in the upper-triangle
+layout — with ANY value array of the assembled length, e.g. after `update` and the `± ε` of
+`regularize_and_refactor` — satisfies the three input hypotheses of C12's theorems about
+`QDLDLFactorisation::new` (`new_factor_correct`, `new_solve_correct`): valid CSC encoding
+(`wellFormed`), accepted by `check_structure` (square, upper triangular, no empty column: the
+diagonal is structurally complete), no position stored twice (`NoDupCols`). -/
+theorem kkt_is_qdldl_input {α : Type} [OfNat α 0] {P A : Csc α} {cones : List ConeSpec}
+    {K : Csc α} {map : LDLDataMap} (hin : KktInputs P A cones)
+    (h : assembleKktMatrix P A cones .triu = .ok (K, map)) (nz' : Array α)
+    (hsz : nz'.size = K.nzval.size) :
+    Clarabel.Qdldl.wellFormed ({ K with nzval := nz' } : Csc α) = true ∧
+    Clarabel.Qdldl.checkStructure ({ K with nzval := nz' } : Csc α) = .ok () ∧
+    Clarabel.Qdldl.NoDupCols K.colptr K.rowval ∧ K.n = kktDim A cones := by
+  obtain ⟨K', map', nd, h', _, hm, hn, _⟩ := assembly_total P A cones .triu hin
+  rw [h] at h'
+  obtain ⟨rfl, rfl⟩ : K' = K ∧ map' = map := by
+    have := Except.ok.inj h'
+    exact ⟨(Prod.mk.inj this).1.symm, (Prod.mk.inj this).2.symm⟩
+  have hc0 := (assembly_check_format_updated hin h nz' hsz).1
+  have := Clarabel.Lemmas.KktQdldlInput.qdldl_input_of_canonical ({ K' with nzval := nz' } : Csc α)
+    hc0 (by show K'.m = K'.n; rw [hm, hn]) (by
+      intro c hc
+      have hc' : c < kktDim A cones := by rw [← hn]; exact hc
+      obtain ⟨h1, h2, _, h4⟩ := assembly_canonical hin h c hc'
+      exact ⟨h1, h2, h4⟩)
+  exact ⟨this.1, this.2.1, this.2.2, hn⟩
+
+variable {α : Type} [Field α] [LinearOrder α] [IsStrictOrderedRing α] [FloatLike α]
+  [LawfulFloatLike α]
+
+/-- [F] `C11.kkt_factorisation_signs`: **the recorded sign pattern IS the pivot-sign pattern of
+QDLDL's `D`, for ANY permutation** — on the composed models of C11 and C12.  Let `K` be a valid
+QDLDL input (`kkt_is_qdldl_input`: the assembled KKT matrix with its current values) whose
+symmetric meaning `symOf K` is quasidefinite with margin `ε > 0` for the pattern `s`
+(`inertia_cone_list` / `inertia_genpow_expansion` / `inertia_margin`: the regularised KKT matrix
+of any cone list), `dsigns[i] = +1` where `s i`, `−1` elsewhere (`_fill_signs`), `perm` ANY valid
+ordering (`invperm` accepts it, C12 `invperm_ok_iff`), and the dynamic-regularisation threshold
+`eps ≤ ε`.  Then for the model of `QDLDLFactorisation::new(K, perm, dsigns, …)`:
+* with dynamic regularisation on (`eps > 0`, `delta ≠ 0`, the solver's setting) it returns a
+  factorisation object — never `ZeroPivot`, never a panic;
+* for every returned object `F` (regularisation on or off): `D[r]` has the sign
+  `dsigns[perm[r]]` and modulus `≥ ε` for every row `r` of the permuted matrix;
+* `regularize_count = 0`: the dynamic regularisation is never triggered;
+* `positive_inertia = #{i | dsigns[i] = +1}` (`= n +` the number of `+1` auxiliary columns,
+  `positive_inertia_count`). -/
+theorem kkt_factorisation_signs (K : Csc α) (hw : Clarabel.Qdldl.wellFormed K = true)
+    (hc : Clarabel.Qdldl.checkStructure K = .ok ())
+    (hnd : Clarabel.Qdldl.NoDupCols K.colptr K.rowval) (hn : 0 < K.n)
+    (perm iperm : Array Nat) (hip : Clarabel.Perm.invperm perm = .ok iperm) (hps : perm.size = K.n)
+    (ds : Array Int) (hdsz : K.n ≤ ds.size) (s : Fin K.n → Bool)
+    (hds : ∀ i : Fin K.n, ds.getD i.val 0 = if s i then 1 else -1)
+    (enable : Bool) (eps delta ε : α)
+    (hQ : QuasiDefGE (fun i j : Fin K.n => Clarabel.Qdldl.symOf K i.val j.val) s Finset.univ ε)
+    (hε : 0 < ε) (heps : eps ≤ ε) :
+    (enable = true → 0 < eps → delta ≠ 0 →
+      ∃ F, Clarabel.Qdldl.new K perm (some ds) enable eps delta false = .ok F) ∧
+    ∀ F, Clarabel.Qdldl.new K perm (some ds) enable eps delta false = .ok F →
+      (∀ r (hr : r < K.n), ∃ hpr : perm.getD r 0 < K.n,
+        ds.getD (perm.getD r 0) 0 = (if s ⟨perm.getD r 0, hpr⟩ then 1 else -1) ∧
+        if s ⟨perm.getD r 0, hpr⟩ then ε ≤ F.D.getD r 0 else F.D.getD r 0 ≤ -ε) ∧
+      F.regularizeCount = 0 ∧
+      F.positiveInertia = (Finset.univ.filter (fun i : Fin K.n => s i = true)).card := by
+  have hds' : ∀ d, some ds = some d → K.n ≤ d.size := by
+    intro d hd; cases hd; exact hdsz
+  constructor
+  · intro hen he hd
+    subst hen
+    apply Clarabel.Qdldl.new_ok_of_rule K hw hc hnd hn perm iperm hip hps (some ds) hds' true eps delta
+    intro k hk x
+    obtain ⟨_, hinv⟩ := Clarabel.Qdldl.invperm_invPair perm iperm hip
+    rw [hps] at hinv
+    have hpk := hinv.pm_lt k hk
+    have hsg : Clarabel.Qdldl.signAt (some ds) perm k = 1 ∨
+        Clarabel.Qdldl.signAt (some ds) perm k = -1 := by
+      show ds.getD (perm.getD k 0) 0 = 1 ∨ ds.getD (perm.getD k 0) 0 = -1
+      have := hds ⟨perm.getD k 0, hpk⟩
+      by_cases hs : s ⟨perm.getD k 0, hpk⟩ = true
+      · left; rw [this, if_pos hs]
+      · right; rw [this, if_neg hs]
+    exact Clarabel.Qdldl.rule_ne_zero eps delta _ hsg he hd x
+  · intro F hF
+    have hS := (Clarabel.Qdldl.new_correct K hw hc hnd hn perm iperm hip hps (some ds) hds'
+      enable eps delta).2 F hF
+    exact Clarabel.Qdldl.newSpec_signs K perm iperm hip hps ds enable eps delta ε s hQ hε heps hds F hS
+
+/-- [F] `C11.positive_inertia_count`: the number of `+` indices of a cone list's KKT matrix is
+`n +` the number of `+1` auxiliary columns (one per sparse expansion). -/
+theorem positive_inertia_count (n : Nat) (cones : List ConeSpec) :
+    (Finset.univ.filter (fun idx : KktIdx n cones => idx.isLeft = true)).card
+      = n + ∑ i : Fin cones.length, nPlus cones[i] := by
+  have : Finset.univ.filter (fun idx : KktIdx n cones => idx.isLeft = true)
+      = Finset.univ.map ⟨Sum.inl, Sum.inl_injective⟩ := by
+    ext x
+    rcases x with x | x <;> simp
+  rw [this, Finset.card_map, Finset.card_univ, Fintype.card_sum, Fintype.card_fin,
+    Fintype.card_sigma]
+  simp
+
+/-- non-vacuity of `kkt_factorisation_signs` (over ℝ): `K = [[2, 1], [1, −3]]` (upper triangle
+stored; `Lemmas/KktQdldlExample.lean`), the regularised KKT matrix of the `KktInertia` example
+(`P = [1]`, `A = [1]`, `H = [2]`, `ε = 1`), `dsigns = [+1, −1]`, the REVERSED ordering
+`perm = [1, 0]`: all hypotheses hold (any `eps ≤ 1`). -/
+example : Clarabel.Qdldl.wellFormed Clarabel.Lemmas.KktQdldlExample.exK2 = true ∧
+    Clarabel.Qdldl.checkStructure Clarabel.Lemmas.KktQdldlExample.exK2 = .ok () ∧
+    Clarabel.Qdldl.NoDupCols Clarabel.Lemmas.KktQdldlExample.exK2.colptr
+      Clarabel.Lemmas.KktQdldlExample.exK2.rowval ∧
+    Clarabel.Perm.invperm #[1, 0] = .ok #[1, 0] ∧
+    (∀ i : Fin 2, (#[1, -1] : Array Int).getD i.val 0
+      = if Clarabel.Lemmas.KktQdldlExample.exS2 i then 1 else -1) ∧
+    QuasiDefGE (fun i j : Fin 2 =>
+      Clarabel.Qdldl.symOf Clarabel.Lemmas.KktQdldlExample.exK2 i.val j.val)
+      Clarabel.Lemmas.KktQdldlExample.exS2 Finset.univ 1 :=
+  ⟨Clarabel.Lemmas.KktQdldlExample.exK2_wellFormed,
+    Clarabel.Lemmas.KktQdldlExample.exK2_checkStructure,
+    Clarabel.Lemmas.KktQdldlExample.exK2_nodup,
+    Clarabel.Lemmas.KktQdldlExample.exK2_invperm,
+    Clarabel.Lemmas.KktQdldlExample.exK2_dsigns,
+    Clarabel.Lemmas.KktQdldlExample.exK2_quasiDefGE⟩
+
+end qdldl
+
+-- ====================================================================================
+-- the scaling data come from the cone models (follow-up to round 3)
+-- ====================================================================================
+
+section scaling_models
+open Clarabel.Lemmas.KktUpdateAsm Clarabel.Lemmas.KktScalingFits
+open Clarabel.Lemmas.KktUpdateSchur
+
+/-
+  `scalingOfNonneg / scalingOfSoc / scalingOfGenPow / scalingOfSym3 / scalingOfPsd`
+  (`Lemmas/KktScalingFits.lean`) read the `Kkt.ConeScaling` record — the input of C11's `update`
+  theorems — off the state of the cone models of C13/C14 (the fields the Rust cone holds after
+  `update_scaling`).  `SocShape K d`: `K.dim = d` and `K` carries `sparse_data` iff `d > 4`
+  (what `SecondOrderCone::new(d)` establishes, `soc_new_shape`).
+-/
+
+/-- [F] `C11.update_genpow_mulHs_model`: **the `−mul_Hs` of `update_genpow_schur` /
+`assemble_update_genpow_schur` is literally the cone model's `mul_Hs`** (`GenPow.mulHs`, model of
+`genpowcone.rs::mul_Hs`; C14 `genpow_mulHs`): for a `Data` record with consistent lengths
+(`layout_fits_genpow`) and `x = (x1, x2)`, the model succeeds and its `k`-th output is
+`genpowMulHs μ D p̃ q̃ r̃ x k` — so eliminating the three auxiliary variables of the block that
+`update` writes reproduces exactly the operator `H` that the generalised power cone applies, as
+`update_soc_mulHs_model` shows for the second-order cone. -/
+theorem update_genpow_mulHs_model (D : Clarabel.GenPow.Data ℝ) (μ : ℝ) (x1 x2 : List ℝ)
+    (hx1 : x1.length = D.d1.size) (hx2 : x2.length = D.r.size)
+    (hq : D.q.size = D.d1.size) (hp : D.p.size = D.d1.size + D.r.size) :
+    ∃ yv, Clarabel.GenPow.mulHs D μ D.d1.size (x1 ++ x2).toArray = .ok yv ∧
+      yv.size = D.d1.size + D.r.size ∧
+      ∀ k : Fin (D.d1.size + D.r.size),
+        yv[k.val]? = some (genpowMulHs μ (genpowD D.d1 D.d2) (placeAt D.p 0) (placeAt D.q 0)
+          (placeAt D.r D.d1.size) (fun j => (x1 ++ x2).getD j.val 0) k) :=
+  Clarabel.Lemmas.KktGenPowMulHs.genpow_mulHs_model D μ x1 x2 hx1 hx2 hq hp
+
+/-- non-vacuity of `update_genpow_mulHs_model`: `dim1 = 2`, `dim2 = 1`. -/
+example : ∃ (D : Clarabel.GenPow.Data ℝ) (x1 x2 : List ℝ), x1.length = D.d1.size ∧
+    x2.length = D.r.size ∧ D.q.size = D.d1.size ∧ D.p.size = D.d1.size + D.r.size :=
+  ⟨⟨#[0, 0, 0], #[1, 2, 3], #[4, 5], #[6], #[7, 8], 9⟩, [1, 1], [1], rfl, rfl, rfl, rfl⟩
+
+section structural
+variable {α : Type} [Add α] [Sub α] [Mul α] [Div α] [Neg α] [OfNat α 0] [OfNat α 1]
+  [LT α] [DecidableLT α] [FloatLike α]
+
+/-- [S] `C11.layout_fits_nonneg`: the data a nonnegative cone of dimension `d` holds after the
+cone model's `update_scaling` (C13) fit `nonneg d`, and C11's `get_Hs` on them IS the cone model's
+`get_Hs` (so `get_Hs` success is not a hypothesis for this cone). -/
+theorem layout_fits_nonneg {K K' : Clarabel.Nonneg.Cone α} {s z : Array α} {d : Nat}
+    (hd : K.w.size = d) (h : Clarabel.Nonneg.updateScaling K s z = .ok K') :
+    ScalingFits (scalingOfNonneg K') (.nonneg d) ∧
+      getHs (scalingOfNonneg K') = Clarabel.Nonneg.getHs K' K'.w.size :=
+  ⟨nonneg_update_fits hd h, nonneg_getHs_eq K'⟩
+
+/-- non-vacuity of `layout_fits_nonneg` (over ℝ): `d = 1`, `s = z = (1)`. -/
+example : ∃ K' : Clarabel.Nonneg.Cone ℝ,
+    Clarabel.Nonneg.updateScaling ⟨#[0], #[0]⟩ #[1] #[1] = .ok K' := ⟨_, rfl⟩
+
+/-- [S] `C11.layout_fits_soc`: after a successful `update_scaling` of the second-order-cone
+model (C13; success for interior `(s, z)`: `C13.soc_update_succeeds`) on an object with the shape
+`SecondOrderCone::new(d)` gives it, the data fit `soc d` — dense form for `d ≤ 4`, sparse form
+(`u, v, d`) above — the shape is kept, `|w| = d` and `|u| = |v| = d` (the hypotheses `husz`, `hvsz`
+of `assemble_update_soc_schur`). -/
+theorem layout_fits_soc {K K' : Clarabel.Soc.Cone α} {s z : Array α} {d : Nat}
+    (hK : SocShape K d) (h : Clarabel.Soc.updateScaling K s z = .ok (true, K')) :
+    ScalingFits (scalingOfSoc K') (.soc d) ∧ SocShape K' d ∧ K'.w.size = d ∧
+      ∀ sp, K'.sparse = some sp → sp.u.size = d ∧ sp.v.size = d :=
+  soc_update_fits hK h
+
+/-- [S] `SecondOrderCone::new(d)` establishes the shape; C11's `get_Hs` on the data of a sparse
+second-order cone IS the cone model's `get_Hs`. -/
+theorem layout_soc_new_and_getHs {d : Nat} {K : Clarabel.Soc.Cone α}
+    (h : Clarabel.Soc.new d = .ok K) :
+    SocShape K d ∧ ∀ (K' : Clarabel.Soc.Cone α) (sp : Clarabel.Soc.Sparse α) (n : Nat),
+      K'.sparse = some sp → K'.dim = n + 1 → getHs (scalingOfSoc K') = Clarabel.Soc.getHs K' :=
+  ⟨soc_new_shape h, fun K' sp n hsp hd => soc_sparse_getHs_eq K' sp hsp n hd⟩
+
+/-- non-vacuity of `layout_fits_soc` / `layout_soc_new_and_getHs` (over ℝ): `new(5)` succeeds
+(sparse form), so `SocShape` holds for it. -/
+example : ∃ K : Clarabel.Soc.Cone ℝ, Clarabel.Soc.new 5 = .ok K ∧ SocShape K 5 := by
+  have h : ∃ K : Clarabel.Soc.Cone ℝ, Clarabel.Soc.new 5 = .ok K := ⟨_, rfl⟩
+  obtain ⟨K, hK⟩ := h
+  exact ⟨K, hK, soc_new_shape hK⟩
+
+/-- [S] `C11.layout_fits_dense`: the packed `Hs` of the 3×3 scaling matrix of the exponential /
+power cone models (C14 `Exp.updateScaling`, `Pow.updateScaling`: a `Sym3`, 6 entries) fits `exp`
+and `pow`. -/
+theorem layout_fits_dense (Hs : Clarabel.Sym3 α) :
+    ScalingFits (scalingOfSym3 Hs) .exp ∧ ScalingFits (scalingOfSym3 Hs) .pow :=
+  sym3_fits Hs
+
+section genpow
+variable [LE α] [DecidableLE α] [BEq α] [OfNat α 2] [OfNat α 3] [OfScientific α]
+
+/-- [S] `C11.layout_fits_genpow`: after an ACCEPTED `update_scaling` of the generalised-power-cone
+model (C14 `genpow_update_scaling_test`: accepted iff `ζ > 0`) with exponents `al` on a point of
+length `|al| + dim2`, the stored data fit `genpow |al| dim2`, `|p| = dim1 + dim2`, `|q| = dim1`
+(the hypotheses `hpsz`, `hqsz` of `assemble_update_genpow_schur`), and C11's `get_Hs` on them IS
+the cone model's `get_Hs`. -/
+theorem layout_fits_genpow {al z : Array α} {st st' : Clarabel.GenPow.State α} {mu : α}
+    {dim2 : Nat} (hz : z.size = al.size + dim2)
+    (h : Clarabel.GenPow.updateScaling al st z mu = .ok (true, st')) :
+    ScalingFits (scalingOfGenPow st') (.genpow al.size dim2) ∧
+      st'.D.p.size = st'.D.d1.size + st'.D.r.size ∧ st'.D.q.size = st'.D.d1.size ∧
+      getHs (scalingOfGenPow st') = .ok (Clarabel.GenPow.getHs st'.D st'.mu st'.D.r.size) := by
+  obtain ⟨h1, h2, h3⟩ := genpow_update_fits hz h
+  exact ⟨h1, h2, h3, genpow_getHs_eq st'⟩
+
+end genpow
+end structural
+
+/-- non-vacuity of `layout_fits_genpow` (over ℝ): `α = (½, ½)`, `z = (1, 1, ½)` is accepted
+(C14 `updateScaling_accept`). -/
+example : ∃ st' : Clarabel.GenPow.State ℝ,
+    (([1, 1] : List ℝ) ++ [1 / 2]).toArray.size = ([1 / 2, 1 / 2] : List ℝ).toArray.size + 1 ∧
+    Clarabel.GenPow.updateScaling ([1 / 2, 1 / 2] : List ℝ).toArray (Clarabel.GenPow.State.init 2 1)
+      (([1, 1] : List ℝ) ++ [1 / 2]).toArray 1 = .ok (true, st') := by
+  have hζ : 0 < Clarabel.GenPow.prodPhi [1 / 2, 1 / 2] [1, 1] - Clarabel.GenPow.sumSq [1 / 2] := by
+    unfold Clarabel.GenPow.prodPhi Clarabel.GenPow.sumSq
+    norm_num
+  obtain ⟨D, _, h⟩ := Clarabel.GenPow.updateScaling_accept [1 / 2, 1 / 2] [1, 1] [1 / 2] rfl
+    (Clarabel.GenPow.State.init 2 1) 1 hζ
+  exact ⟨_, rfl, h⟩
+
+/-- [S] `C11.layout_fits_psd`: the `Hs` that the PSD-cone model's `assembleScaling` (C13
+`psd_assemble_spec`) stores fits `psd n` (`tri(tri n)` packed entries; over ℝ). -/
+theorem layout_fits_psd {n : Nat} {L1 L2 U Vt sig : Array ℝ} {K : Clarabel.PsdTri.Cone ℝ}
+    {RRt : Array ℝ} (h : Clarabel.PsdTri.assembleScaling n L1 L2 U Vt sig = .ok (K, RRt)) :
+    ScalingFits (scalingOfPsd K) (.psd n) :=
+  psd_assemble_fits h
+
+/-- non-vacuity of `layout_fits_psd`: `n = 1`, all factors `(1)`. -/
+example : ∃ (K : Clarabel.PsdTri.Cone ℝ) (RRt : Array ℝ),
+    Clarabel.PsdTri.assembleScaling 1 #[1] #[1] #[1] #[1] #[1] = .ok (K, RRt) := ⟨_, _, rfl⟩
+
+end scaling_models
 
 end Clarabel.C11
